@@ -637,13 +637,39 @@ class _Interp:
             x = self.call("construct:start_values", ir.Series, num_variants=nv, start=self.P(lo), values=vals,
                           description=description)
         elif how == "from_start_and_array":
-            x = self.call("construct:from_start_and_array", ir.Series.from_start_and_array, self.P(lo), arr.copy(),
+            given = arr.copy()
+            x = self.call("construct:from_start_and_array", ir.Series.from_start_and_array, self.P(lo), given,
                           description=description)
+            twin = self.call("construct:from_start_and_array", ir.Series.from_start_and_array, self.P(lo), given,
+                             description=description)
+            self.remember_twin(twin, given)
         else:  # start_array
             vals = arr[:, 0].copy() if (nv == 1 and d.get("as_tuple")) else arr.copy()
             x = self.call("construct:start_values", ir.Series, num_variants=nv, start=self.P(lo), values=vals,
                           description=description)
+            twin = self.call("construct:start_values", ir.Series, num_variants=nv, start=self.P(lo), values=vals,
+                             description=description)
+            self.remember_twin(twin, vals)
         return x, m
+
+    # a second series built from the very same array, and the array itself: later writes to the first series
+    # must leave both as they were (a Series is a map of its own, not a view of the caller's data)
+    def remember_twin(self, twin, given):
+        if not hasattr(self, "twins"):
+            self.twins = []
+        self.twins.append((twin, _snap(twin), given, given.copy()))
+
+    def twins_intact(self, what):
+        for twin, snap, given, orig in getattr(self, "twins", ()):
+            if _snap(twin) != snap:
+                self.col.fail("aliasing:sibling_series_changed",
+                              f"step {self.step} {what}: a series built earlier from the same array changed although it was never touched")
+                return False
+            if not np.array_equal(given, orig, equal_nan=True):
+                self.col.fail("aliasing:input_array_changed",
+                              f"step {self.step} {what}: the array the series was constructed from changed: {given.tolist()} was {orig.tolist()}")
+                return False
+        return True
 
     # ---- verification ----------------------------------------------------------
 
@@ -1267,6 +1293,8 @@ class _Interp:
                 self.flags.add("functional_form")
             what = _brief(op)
             if not self.finish(res, before, what):
+                return
+            if not self.twins_intact(what):
                 return
 
 
